@@ -214,6 +214,69 @@ def h_vfreebusy(start: int, end: int, has_dtstart: bool, dtstart: int, has_dtend
     return run(body_vfreebusy, start, end, has_dtstart, dtstart, has_dtend, dtend, periods)
 
 
+# ------------------------------------------------------------------ filter semantics (9.7.1 - 9.7.5)
+from xv.harness import _calq  # noqa: E402
+
+
+def _two_comps(n, k1, hs1, s1, hl1, l1, d1, k2, hs2, s2, d2, is_date, has_end, e1):
+    comps = []
+    if n >= 1:
+        comps.append(_calq.component(k1, hs1, s1, hl1, l1, True, d1, is_date, has_end, e1))
+    if n >= 2:
+        comps.append(_calq.component(k2, hs2, s2, False, "", True, d2, False, False, 0))
+    return _calq.calendar(comps)
+
+
+def _filter_body(build, n, k1, hs1, s1, hl1, l1, d1, k2, hs2, s2, d2, is_date, has_end, e1, kindf, text, coll,
+                 negate, start, end):
+    shape = ctx.PART
+    f, model = _two_comps(n, k1, hs1, s1, hl1, l1, d1, k2, hs2, s2, d2, is_date, has_end, e1)
+    spec = _calq.spec(shape, kindf, text, coll, negate, start, end)
+    want = O.match_filter(spec, model, contains=True)
+    if ctx.kf("C11-text-match-equality") and O.match_filter(spec, model, contains=False) != want:
+        # known finding: text-match compares for equality instead of substring (pinned by an existing test)
+        return (True, "known")
+    flt = build(shape, kindf, text, coll, negate, start, end)
+    got = flt.check("x.ics", f)
+    return (bool(got) == want, shape + (":hit" if want else ":miss"))
+
+
+def body_filter_api(*a):
+    return _filter_body(_calq.build_api, *a)
+
+
+def body_filter_xml(*a):
+    return _filter_body(_calq.build_xml, *a)
+
+
+_FILTER_SIG = """n: int, k1: int, hs1: bool, s1: str, hl1: bool, l1: str, d1: int, k2: int, hs2: bool, s2: str,
+d2: int, is_date: bool, has_end: bool, e1: int, kindf: int, text: str, coll: int, negate: bool, start: int, end: int"""
+
+
+def h_filter_api(n: int, k1: int, hs1: bool, s1: str, hl1: bool, l1: str, d1: int, k2: int, hs2: bool, s2: str,
+                 d2: int, is_date: bool, has_end: bool, e1: int, kindf: int, text: str, coll: int, negate: bool,
+                 start: int, end: int) -> bool:
+    """
+    pre: 0 <= n <= 2 and 0 <= k1 <= 2 and 0 <= k2 <= 2 and 0 <= kindf <= 2 and 0 <= coll <= 1 and start < end
+    pre: max(len(s1), len(s2), len(l1), len(text)) <= ctx.b.slen and d1 <= e1
+    post: _
+    """
+    return run(body_filter_api, n, k1, hs1, s1, hl1, l1, d1, k2, hs2, s2, d2, is_date, has_end, e1, kindf, text,
+               coll, negate, start, end)
+
+
+def h_filter_xml(n: int, k1: int, hs1: bool, s1: str, hl1: bool, l1: str, d1: int, k2: int, hs2: bool, s2: str,
+                 d2: int, is_date: bool, has_end: bool, e1: int, kindf: int, text: str, coll: int, negate: bool,
+                 start: int, end: int) -> bool:
+    """
+    pre: 0 <= n <= 2 and 0 <= k1 <= 2 and 0 <= k2 <= 2 and 0 <= kindf <= 2 and 0 <= coll <= 1 and start < end
+    pre: max(len(s1), len(s2), len(l1), len(text)) <= ctx.b.slen and d1 <= e1
+    post: _
+    """
+    return run(body_filter_xml, n, k1, hs1, s1, hl1, l1, d1, k2, hs2, s2, d2, is_date, has_end, e1, kindf, text,
+               coll, negate, start, end)
+
+
 _TR_ASSUME = [
     "time-range start < end (RFC 4791 9.9 requires end > start; _parse_time_range asserts it)",
     "property combinations restricted to those RFC 5545 allows (no DUE together with DURATION, no DURATION without DTSTART)",
@@ -254,5 +317,27 @@ HARNESSES = [
         describe="apply_time_range_vfreebusy == RFC 4791 9.9 VFREEBUSY table, <= nperiods FREEBUSY periods",
         assumptions=_TR_ASSUME,
         encodes=["xandikos.icalendar.apply_time_range_vfreebusy"],
+    ),
+    Harness(
+        "filter_api", h_filter_api, body_filter_api,
+        classes=[(sh + ":hit", sh) for sh in _calq.SHAPES] + [("comp:miss", "comp"), ("prop-text:miss", "prop-text")],
+        parts={"quick": list(_calq.SHAPES)}, bounds={"quick": {"slen": 2}, "thorough": {"slen": 3}},
+        budget={"quick": 60, "thorough": 420},
+        describe="CalendarFilter.check on a calendar of <= 2 components vs the 9.7 reference; filter built through "
+                 "the filter_* API; part = filter shape",
+        encodes=["xandikos.icalendar.CalendarFilter.check", "xandikos.icalendar.ComponentFilter.match",
+                 "xandikos.icalendar.PropertyFilter.match", "xandikos.icalendar.ParameterFilter.match",
+                 "xandikos.icalendar.TextMatcher.match", "xandikos.icalendar.ComponentTimeRangeMatcher.match",
+                 "xandikos.icalendar.PropertyTimeRangeMatcher.match", "xandikos.collation._match"],
+    ),
+    Harness(
+        "filter_xml", h_filter_xml, body_filter_xml,
+        classes=[(sh + ":hit", sh) for sh in _calq.SHAPES],
+        parts={"quick": list(_calq.SHAPES)}, bounds={"quick": {"slen": 2}, "thorough": {"slen": 3}},
+        budget={"quick": 60, "thorough": 420},
+        describe="same, the filter compiled from a CALDAV:filter element by the real parse_filter",
+        encodes=["xandikos.caldav.parse_filter", "xandikos.caldav.parse_comp_filter", "xandikos.caldav.parse_prop_filter",
+                 "xandikos.caldav.parse_param_filter", "xandikos.caldav.parse_text_match",
+                 "xandikos.caldav.parse_time_range", "xandikos.caldav._parse_time_range"],
     ),
 ]
